@@ -51,7 +51,8 @@ def rule_range(P):
                 draws = o.env.get("#draws")
                 want_first = first // div
                 r.inst((top, first), {"top": top, "generator_output": first, "returned": ret, "draws": draws})
-                ok = ret is not None and 0 <= ret < top and ((draws == 1 and ret == want_first) or (draws == 2 and want_first >= top and ret == 0))
+                # the property is the range (and a bounded number of draws), not a particular mapping of generator outputs to results
+                ok = ret is not None and 0 <= ret < top and draws is not None and draws <= 2
                 if not ok and nb < 3:
                     nb += 1
                     r.bad("K6:evutil_weakrand_range_:out-of-range", "%s:%d" % (f.file, f.line), f.name, "top=%d, generator output %d: returns %s after %s draws; documented a value in [0,%d)" % (top, first, ret, draws, top))
